@@ -280,6 +280,54 @@ pub fn run_hostile(a: &Args) {
         }
         emit(&mut out, &mut st, &mut dog, "many-root-questions", &b);
     }
+    // many minimal records of every type: as many records with RDLENGTH 0 as fit in 5.5 KB / 60 KB, and the last
+    // record of every valid base message repeated to the same sizes -- whatever is allocated per record must not
+    // grow with the size of the whole message (quadratic peak heap)
+    {
+        let mut codes: Vec<u16> = (1u16..=65).collect();
+        codes.extend([99, 108, 109, 249, 250, 255, 256, 257, 9999, 65535]);
+        let sizes: &[usize] = if thorough { &[500, 5400] } else { &[500] };
+        for &n in sizes {
+            for &t in &codes {
+                let mut b = vec![0, 1, 0x80, 0, 0, 0];
+                b.extend((n as u16).to_be_bytes());
+                b.extend([0, 0, 0, 0]);
+                for _ in 0..n {
+                    b.push(0);
+                    b.extend(t.to_be_bytes());
+                    b.extend([0, 1, 0, 0, 0, 0, 0, 0]);
+                }
+                emit(&mut out, &mut st, &mut dog, "many-empty-records", &b);
+            }
+        }
+        let mut seen = std::collections::HashSet::new();
+        for (tn, msg) in bases.iter() {
+            if msg.len() < 12 || msg.len() > 400 || !(thorough || seen.insert(tn.clone())) {
+                continue;
+            }
+            // where the parser starts the entries of the base: the last entry runs to the end of the message
+            let starts = entry_starts(msg);
+            let last = match starts.as_array().and_then(|v| v.last()).and_then(|v| v.as_u64()) {
+                Some(p) if (p as usize) >= 12 && (p as usize) < msg.len() => p as usize,
+                _ => continue,
+            };
+            let count_at = (4..=10).rev().step_by(2).find(|&i| msg[i] != 0 || msg[i + 1] != 0);
+            let count_at = match count_at {
+                Some(i) if i > 4 => i,
+                _ => continue, // the last entry is a question
+            };
+            let rec = msg[last..].to_vec();
+            let target = if thorough { 30000 } else { 6000 };
+            let k = (target / rec.len().max(1)).min(5000);
+            let mut b = msg.clone();
+            for _ in 0..k {
+                b.extend(&rec);
+            }
+            let c = u16::from_be_bytes([msg[count_at], msg[count_at + 1]]) as usize + k;
+            b[count_at..count_at + 2].copy_from_slice(&(c as u16).to_be_bytes());
+            emit(&mut out, &mut st, &mut dog, &format!("repeated-record {tn}"), &b);
+        }
+    }
     // (iii) pointer chains referenced many times
     for (k, m) in [(10usize, 10usize), (100, 100), (1000, 200), (2200, 280), (4000, 1500), (8000, 3000)] {
         let b = pointer_chain_message(k, m);
